@@ -83,17 +83,17 @@ theorem modelGot_eq_ref (k : Kind) (ft : FnType) (acc : Access) (bk : BodyKind) 
     modelGot ⟨k, ft, acc, bk⟩ = refGot ⟨k, ft, acc, bk⟩ := by
   cases k <;> cases ft <;> cases acc <;> cases bk <;> first | rfl | (simp [supported] at h)
 
-/-- the plain call of the callable: a future of the async body for a pure function, otherwise the value of the
-    async body - or of sync_fn when one was supplied -/
 theorem modelRecv_eq_ref (k : Kind) (ft : FnType) (acc : Access) (bk : BodyKind) (h : supported k ft acc = true) :
     modelRecv ⟨k, ft, acc, bk⟩ = refRecv ⟨k, ft, acc, bk⟩ := by
   cases k <;> cases ft <;> cases acc <;> cases bk <;> first | rfl | (simp [supported] at h)
 
+/-- the plain call of the callable: a future of the async body for a pure function, otherwise the value of the
+    async body - or of sync_fn when one was supplied; the generator object for an undecorated generator function -/
 theorem call_eq (k : Kind) (ft : FnType) (acc : Access) (bk : BodyKind) (a : Args) (keyOf : Args → Args)
     (h : supported k ft acc = true) :
     app (Env.idle keyOf) .call (Cell.callable ⟨k, ft, acc, bk⟩) (callerArgs ft acc 0 a) =
       (if k.pureLike then .fut ⟨1, refArgs ft acc 0 a, false⟩
-       else .val ⟨if k.hasSyncFn then 2 else 1, refArgs ft acc 0 a, k.userWrapped⟩) := by
+       else Cell.refVal ⟨k, ft, acc, bk⟩ ⟨if k.hasSyncFn then 2 else 1, refArgs ft acc 0 a, k.userWrapped⟩) := by
   cases k <;> cases ft <;> cases acc <;> cases bk <;> first | rfl | (simp [supported] at h)
 
 /-- the `.asynq` attribute of the callable -/
@@ -151,5 +151,100 @@ theorem clsClause_self (c : Cls) : clsClause c c = none := by
 
 theorem reportClause_self (r : Report) : reportClause r r = none := by
   simp [reportClause, obsListClause_self, clsClause_self, Option.orElse]
+
+/-! the observer accepts NOTHING ELSE: `reportClause e o = none` iff the two reports are equal -/
+
+
+theorem entries_ext : ∀ (l₁ l₂ : List Entry), l₁.map (·.body) = l₂.map (·.body) → l₁.map (·.seen) = l₂.map (·.seen) →
+    l₁.map (·.got) = l₂.map (·.got) → l₁ = l₂
+  | [], [], _, _, _ => rfl
+  | [], _ :: _, h, _, _ => by simp at h
+  | _ :: _, [], h, _, _ => by simp at h
+  | ⟨b, s, g⟩ :: xs, ⟨b', s', g'⟩ :: ys, h1, h2, h3 => by
+    simp only [List.map_cons, List.cons.injEq] at h1 h2 h3
+    rw [entries_ext xs ys h1.2 h2.2 h3.2]
+    obtain ⟨rfl, _⟩ := h1
+    obtain ⟨rfl, _⟩ := h2
+    obtain ⟨rfl, _⟩ := h3
+    rfl
+
+theorem obsClause_none_iff (e o : Obs) : obsClause e o = none ↔ e = o := by
+  constructor
+  · intro h
+    unfold obsClause at h
+    split at h; · simp at h
+    split at h; · simp at h
+    split at h; · simp at h
+    split at h; · simp at h
+    split at h; · simp at h
+    split at h; · simp at h
+    rename_i h1 h2 h3 h4 h5 h6
+    obtain ⟨cv, log, out, flag⟩ := e
+    obtain ⟨cv', log', out', flag'⟩ := o
+    simp only [bne_iff_ne, ne_eq, Decidable.not_not] at h1 h2 h3 h4 h5 h6
+
+    subst h1 h5 h6
+    rw [entries_ext log log' h2 h3 h4]
+  · rintro rfl; exact obsClause_self e
+
+theorem obsListClause_none_iff : ∀ (es os : List Obs), obsListClause es os = none ↔ es = os
+  | [], [] => by simp [obsListClause]
+  | e :: es, [] => by simp [obsListClause]
+  | [], o :: os => by simp [obsListClause]
+  | e :: es, o :: os => by
+    have ih := obsListClause_none_iff es os
+    simp only [obsListClause, List.cons.injEq]
+    cases h : obsClause e o with
+    | none =>
+      simp only [Option.orElse]
+      rw [ih, (obsClause_none_iff e o).mp h]; simp
+    | some x =>
+      simp only [Option.orElse]
+      constructor
+      · intro hh; cases hh
+      · rintro ⟨rfl, _⟩; rw [obsClause_self] at h; cases h
+
+theorem clsClause_none_iff (e o : Cls) : clsClause e o = none ↔ e = o := by
+  constructor
+  · intro h
+    unfold clsClause at h
+    split at h; · simp at h
+    split at h; · simp at h
+    split at h; · simp at h
+    split at h; · simp at h
+    split at h; · simp at h
+    rename_i h1 h2 h3 h4 h5
+    obtain ⟨a1, a2, a3, a4, a5⟩ := e
+    obtain ⟨b1, b2, b3, b4, b5⟩ := o
+    simp only [bne_iff_ne, ne_eq, Decidable.not_not] at h1 h2 h3 h4 h5
+
+    subst h1 h2 h3 h4 h5
+    rfl
+  · rintro rfl; exact clsClause_self e
+
+theorem reportClause_none_iff (e o : Report) : reportClause e o = none ↔ e = o := by
+  constructor
+  · intro h
+    obtain ⟨eo, ec, eg⟩ := e
+    obtain ⟨oo, oc, og⟩ := o
+    unfold reportClause at h
+    simp only at h
+    cases h1 : obsListClause eo oo with
+    | some x => rw [h1] at h; simp [Option.orElse] at h
+    | none =>
+      rw [h1] at h
+      simp only [Option.orElse] at h
+      cases h2 : clsClause ec oc with
+      | some x => rw [h2] at h; simp at h
+      | none =>
+        rw [h2] at h
+        simp only at h
+        split at h
+        · simp at h
+        · rename_i h3
+          simp only [bne_iff_ne, ne_eq, Decidable.not_not] at h3
+          rw [(obsListClause_none_iff _ _).mp h1, (clsClause_none_iff _ _).mp h2, h3]
+  · rintro rfl; exact reportClause_self e
+
 
 end AsynqModel.Decorators
